@@ -32,6 +32,12 @@ for m in sorted(glob.glob("/verif/seeded-negative/*/meta.json")):
     # line numbers are not part of the key; ordinal suffixes (#n) may shift with a refactoring, compare without them too
     strip = lambda s: {(r, f, re.sub(r"#\d+$", "", c)) for (r, f, c) in s}
     extra = {x for x in v if x not in base_cache[base] and (x[0], x[1], re.sub(r"#\d+$", "", x[2])) not in strip(base_cache[base])}
+    # a report of the BASE tree's own (since repaired) defect that the patch merely renames — the construct
+    # names the callee, and the refactoring moved the call into a helper — is not the patch's: per
+    # (rule, function) only reports in excess of the base tree's count are new
+    from collections import Counter
+    cb, cp = Counter((r, f) for (r, f, c) in base_cache[base]), Counter((r, f) for (r, f, c) in v)
+    extra = {x for x in extra if cp[(x[0], x[1])] > cb[(x[0], x[1])]}
     kfa = d.get("known_false_alarm")
     if failed:
         print(name, "CHECK-FAILED"); bad += 1
